@@ -890,3 +890,42 @@ def detect_bytes(ctx):
             ctx.require((f, p_) == exp, q, 'a byte string of shape %s is classified %s, expected %s' % (name, (f, p_), exp), fn,
                         'a private key in the 33-byte form (secret + 01) whose secret starts with 04 is imported as a PUBLIC key made of its own bytes' if exp[1] else 'a public key is not recognised')
     ctx.floor(n, 8, 'byte shapes')
+
+
+from . import c03 as _c03
+PROP.obligation('C12.depth-domain', canaries=[
+    mut.insert_before('keys', 'HDKey.__init__', 'if witness_type is None:', "if not 0 <= depth < 0xff or not 0 <= child_index <= 0xffffffff:\n    raise BKeyError('Invalid depth or child index')", 'an extended key of depth 255 no longer imports'),
+])(_c03.depth_domain)
+
+
+@PROP.obligation('C12.wif-network-hint', canaries=[
+    mut.replace_expr('keys', 'Key.from_wif', 'network or next(iter(networks), DEFAULT_NETWORK)', 'next(iter(networks), network or DEFAULT_NETWORK)', 'the supplied network only serves as fallback'),
+    mut.replace_expr('keys', 'Key.from_wif', 'network or next(iter(networks), DEFAULT_NETWORK)', 'next(iter(networks), DEFAULT_NETWORK)', 'the supplied network is dropped'),
+])
+def wif_network_hint(ctx):
+    """A WIF version byte is shared by several networks (0x80 bitcoin / regtest, 0xef testnet / testnet4 / signet / litecoin_testnet, 0xb0
+    litecoin / litecoin_legacy). Key.from_wif(wif, network=X) is evaluated with a version byte that two networks share: the Key is built
+    on X when X is supplied and on the first network of the lookup when it is not."""
+    q = 'keys:Key.from_wif'
+    fn = ctx.repo.func(q)
+    n = 0
+    for hint, exp in (('regtest', 'regtest'), ('bitcoin', 'bitcoin'), (None, 'bitcoin')):
+        seen = []
+        hooks = {'change_base': lambda it, a, kw, st, node: S(('var', 'key_hex'), 'str'),
+                 'network_by_value': lambda it, a, kw, st, node: ['bitcoin', 'regtest'],
+                 'Key': lambda it, a, kw, st, node: (seen.append((a, kw)), S(('var', 'the_key')))[1]}
+        it = Interp(ctx.repo, 'keys', hooks=hooks)
+        try:
+            exits = it.run_function(fn, {'wif': S(('var', 'wif'), 'str'), 'network': hint})
+        except AnalysisError as e:
+            ctx.undecided('Key.from_wif(network=%r) not evaluable: %s' % (hint, str(e)[:100]))
+        if not seen:
+            ctx.undecided('Key.from_wif(network=%r): no Key(...) construction reached' % (hint,))
+        for a, kw in seen:
+            n += 1
+            got = kw.get('network', a[1] if len(a) > 1 else None)
+            gv = got if isinstance(got, str) else show(term(got))
+            ctx.saw('from_wif(<0x80 WIF>, network=%r) -> Key(..., network=%s)' % (hint, gv))
+            ctx.require(gv == exp, q, 'Key.from_wif(wif, network=%r) with a version byte shared by bitcoin and regtest builds the key on network %s, expected %s' % (hint, gv, exp), fn,
+                        "Key.from_wif(wif, network='regtest').address() is a bc1... address: the supplied network is lost on import")
+    ctx.floor(n, 3, 'Key constructions')
